@@ -8,27 +8,56 @@ import sys
 from . import VERIF_DIR, REPO_DIR
 
 
-def run_repo_tests_with_contracts(files, workdir, timeout=900):
-    report_path = os.path.join(workdir, 'contract-report-%d.json' % os.getpid())
+def _run_one(files, workdir, timeout, tag):
+    report_path = os.path.join(workdir, 'contract-report-%d-%s.json'
+                               % (os.getpid(), tag))
     env = dict(os.environ)
     env['VERIF_CONTRACT_REPORT'] = report_path
     env['PYTHONPATH'] = VERIF_DIR + os.pathsep + env.get('PYTHONPATH', '')
     env.pop('PYWBEM_VERIF', None)
-    files = [f for f in files if os.path.exists(os.path.join(REPO_DIR, f))]
     try:
         proc = subprocess.run(
             [sys.executable, '-m', 'pytest', '-q', '-p', 'no:cacheprovider',
              '-p', 'vf.contracts_plugin', '-o',
-             'log_file=' + os.path.join(workdir, 'pytest-contracts.log')] +
+             'log_file=' + os.path.join(workdir,
+                                        'pytest-contracts-%s.log' % tag)] +
             files, cwd=REPO_DIR, env=env, stdout=subprocess.PIPE,
             stderr=subprocess.STDOUT, timeout=timeout)
         tail = proc.stdout.decode('utf-8', 'replace')[-400:]
     except subprocess.TimeoutExpired:
-        return {'error': 'pytest with contracts timed out'}
+        return {'error': 'pytest with contracts timed out (%s)' % files}
     if not os.path.exists(report_path):
         return {'error': 'no contract report written: ' + tail}
     with open(report_path, encoding='utf-8') as f:
         rep = json.load(f)
-    rep['files'] = files
     rep['pytest_tail'] = tail.strip().splitlines()[-1] if tail.strip() else ''
+    return rep
+
+
+def run_repo_tests_with_contracts(files, workdir, timeout=3600):
+    """One pytest process per test file (in parallel), reports merged.  The
+    wall-clock limit is a watchdog only: its firing is inconclusive."""
+    from concurrent.futures import ThreadPoolExecutor
+    files = [f for f in files if os.path.exists(os.path.join(REPO_DIR, f))]
+    with ThreadPoolExecutor(max_workers=max(1, min(8, len(files)))) as ex:
+        reps = list(ex.map(
+            lambda t: _run_one([t[1]], workdir, timeout, str(t[0])),
+            enumerate(files)))
+    for r in reps:
+        if 'error' in r:
+            return r
+    rep = {'files': files, 'mode': reps[0].get('mode') if reps else None,
+           'cimint_checked': sum(r.get('cimint_checked', 0) for r in reps),
+           'cimint_bad': [b for r in reps for b in r.get('cimint_bad', [])],
+           'store_invariant_evaluations': sum(
+               r.get('store_invariant_evaluations', 0) for r in reps),
+           'store_invariant_violations': [
+               v for r in reps for v in r.get('store_invariant_violations',
+                                              [])],
+           'pytest_exitstatus': max([r.get('pytest_exitstatus', 0)
+                                     for r in reps] or [0]),
+           'tests_collected': sum(r.get('tests_collected') or 0
+                                  for r in reps),
+           'tests_failed': sum(r.get('tests_failed') or 0 for r in reps),
+           'pytest_tail': ' | '.join(r.get('pytest_tail', '') for r in reps)}
     return rep
